@@ -11,6 +11,8 @@ FUNCTIONS = [
     "toasty.study.StudyTiling.image_to_tile",
     "toasty.study.StudyTiling.tile_image",
     "toasty.image.Image.fill_into_maskable_buffer",
+    "toasty.pyramid.PyramidIO.write_image",
+    "toasty.image.Image.is_completely_masked",
 ]
 LEMMAS = []
 SLOW = ()
